@@ -39,8 +39,14 @@ COMPONENTS = {"real": ["forcefield_helper readers, SMARTS matching, cache, MolGe
 
 FF_UNITS = ["{0}CC{1}", "{0}CC({1})C", "{0}CC({1})c1ccccc1", "{0}CCO{1}", "{0}CC({1})C(=O)OC", "{0}COC{1}", "{0}C(C)C{1}", "{0}CC({1})O",
             "{0}CC({1})C#N", "{0}CC(Cl){1}", "{0}CC({1})C(=O)N", "{0}CC({1})C(=O)O", "{0}CC({1})OC(=O)C", "{0}NCC{1}", "{0}CC(F){1}", "{0}CC({1})Br",
-            "{0}CSC{1}", "{0}C=C{1}"]
-FF_ENDS = ["[H]", "C", "O", "CC", "OC", "c1ccccc1", "C(C)(C)C", "F", "N", "Cl", "Br", "C#N", "C(=O)O", "S"]
+            "{0}CSC{1}", "{0}C=C{1}",
+            # ring systems (fused hetero-aromatics carry ring-size rules: r5 / r6 primitives), substituted rings, ring units
+            "{0}CC({1})c1c(C)oc2ccccc12", "{0}CC({1})c1ccc2ccccc2n1", "{0}CC({1})c1ccc2ccccc2c1", "{0}CC({1})c1cc(C)nc2ccccc12",
+            "{0}CC({1})c1ccc2OCOc2c1", "{0}CC({1})C1CCCCC1", "{0}CC({1})c1ccncc1", "{0}CC({1})c1cccs1", "{0}CC({1})c1ccco1",
+            "{0}CC({1})c1ccc(C)cc1", "{0}CC({1})c1ccc(O)cc1", "{0}CC({1})c1ccc(Cl)cc1", "{0}CC({1})N1CCCC1=O", "{0}CC({1})n1ccnc1",
+            "{0}c1ccc(cc1){1}", "{0}Cc1ccc(cc1)C{1}", "{0}CC({1})c1c(C)sc2ccccc12", "{0}CC({1})c1cc2ccccc2o1", "{0}CC({1})c1cc2ccccc2s1"]
+FF_ENDS = ["[H]", "C", "O", "CC", "OC", "c1ccccc1", "C(C)(C)C", "F", "N", "Cl", "Br", "C#N", "C(=O)O", "S",
+           "Cc1cc2ccccc2o1", "Cc1ccc2ccccc2n1", "c1ccc2ccccc2c1", "Cc1ccco1"]
 FF_PREFIX = ["[H]", "C", "O", "CC", "CO", "c1ccccc1", "C(C)(C)C", "F", "N", "Cl", "Br", "N#CC", "OC(=O)C", "S"]
 CALLS = ["default", "default_explicit_none", "copies", "copies", "rules_copy_only", "params_copy_only", "renumbered", "partial",
          "other_copies", "alt_params", "alt_params"]
